@@ -544,11 +544,10 @@ class BaseEvent(BaseModel, Generic[T_EventResultType]):
                 f'Expected at least one handler to return a non-None result, but none did! {self} -> {self.event_results}'
             )
 
+        # note: a custom include= filter may legitimately select results whose value is None (e.g. all completed results)
         event_results_by_handler_id: dict[PythonIdStr, EventResult[T_EventResultType]] = {
             handler_key: result for handler_key, result in included_results.items()
         }
-        for event_result in event_results_by_handler_id.values():
-            assert event_result.result is not None, f'EventResult {event_result} has no result'
 
         return event_results_by_handler_id
 
